@@ -63,6 +63,13 @@ func (ps *pathState) newFlag(name string) value {
 	if sc, ok := ps.store["scope"].(string); ok && sc != "" {
 		name = sc + "." + name
 	}
+	if shared, _ := ps.store["scopeShared"].(bool); shared {
+		// a scope that stands for one input (the same document, the same profile text): every
+		// consultation of the same stage outcome gets the same answer
+		if f, ok := ps.flags[name]; ok {
+			return f
+		}
+	}
 	name = ps.uniq(name)
 	v := ps.newVar("flag_"+name, 0)
 	ps.inputs = append(ps.inputs, &Input{Name: "flag:" + name, Kind: "bool", Terms: []*smt.Term{v}})
@@ -93,6 +100,12 @@ func registerEnvStubs(e *Engine) {
 	// ---------- harness-side environment API ----------
 	in["zz.Scope"] = func(fr *frame, a []value) value {
 		fr.i.ps.store["scope"] = mustStr(a[0], "Scope")
+		fr.i.ps.store["scopeShared"] = false
+		return nil
+	}
+	in["zz.ScopeShared"] = func(fr *frame, a []value) value {
+		fr.i.ps.store["scope"] = mustStr(a[0], "ScopeShared")
+		fr.i.ps.store["scopeShared"] = true
 		return nil
 	}
 	in["zz.Faults"] = func(fr *frame, a []value) value { fr.i.ps.noFaults = !a[0].(bool); return nil }
